@@ -18,6 +18,7 @@ type c06gBlock struct {
 
 type c06gen struct {
 	thorough bool
+	noRemove bool // suite c07: StateCache.Remove is C06's subject (open finding C06-remove-out-of-order)
 	r      *rand.Rand
 	ops    []string
 	keys   []string
@@ -214,7 +215,7 @@ func (g *c06gen) stepRandom() {
 			g.hashes = append(g.hashes, nh)
 		}
 	case x < 76:
-		if g.r.Intn(3) == 0 {
+		if g.r.Intn(3) == 0 && !g.noRemove {
 			g.emit("srem %s", g.key()) // StateCache.Remove drops the key's whole version map
 		} else {
 			g.lookup()
